@@ -108,7 +108,13 @@ func ToBytes(message interface{}) ([]byte, error) {
 	case *strings.Reader:
 		return StealBytes(r)
 	case io.WriterTo:
-		return StealBytes(r)
+		// an arbitrary io.WriterTo may reuse the buffer it passes to Write,
+		// so its chunks must be copied, not stolen.
+		var buffer bytes.Buffer
+		if _, err := r.WriteTo(&buffer); nil != err {
+			return nil, err
+		}
+		return buffer.Bytes(), nil
 	case io.Reader:
 		return ioutil.ReadAll(r)
 	default:
